@@ -14,6 +14,8 @@ FN = {
     "d1": (["x"], ["p", "y"]),
     "d2": (["x"], ["p", "y", "z"]),
     "d3": (["a", "b"], ["p", "q", "y"]),
+    "d4": (["x"], ["p", "y"]),
+    "d5": (["x", "z"], ["p", "i"]),
     "u1": ([], ["p", "y", "z"]),
     "u2": ([], ["p", "y"]),
 }
